@@ -2,7 +2,7 @@
    Property theorems only; each closed by [exact] of a lemma from proofs/RoleTree_proofs.v.
    Model: model/RoleTree.v (State.X, Status.X, aggregateState/aggregateStatus, SafeState.merge /
    SafeStatus.merge, leaf and aggregator updateState/updateStatus, tokens and schedules). *)
-From Verif Require Import Common Gen_StateX Gen_StatusX Gen_StatusProduct RoleTree RoleTree_proofs.
+From Verif Require Import Common Gen_StateX Gen_StatusX Gen_StatusProduct Gen_MergeAtomic RoleTree RoleTree_proofs.
 From Coq Require Import Permutation.
 Open Scope N_scope.
 
@@ -176,17 +176,55 @@ Theorem C11_sequential_schedule_is_run_ops : forall t ups,
 Proof. exact sequential_schedules. Qed.
 Print Assumptions C11_sequential_schedule_is_run_ops.
 
-(* ---- interleaved updates, all schedules: at quiescence every ancestor of a critical task
-        whose last written state is ERROR reports ERROR ---- *)
+(* ---- the schedules treat a merge as one step.  That is a fact about the source: the lock facts
+        the translator counts in SafeState.merge/get and SafeStatus.merge/get (and in any other
+        method of the two types, and direct accesses elsewhere in the package) are those of one
+        critical section, entered by the first statement and left on every way out, around the
+        comparison, the re-aggregation of the children and the store ---- *)
+
+Theorem C11_merge_is_atomic_in_source :
+  merge_is_atomic = true /\
+  (section_ok state_merge_facts = true /\ section_ok status_merge_facts = true /\
+   lf_entry state_merge_facts = 1 /\ lf_entry status_merge_facts = 1 /\
+   lf_locks state_merge_facts = 1 /\ lf_locks status_merge_facts = 1 /\
+   lf_agg_out state_merge_facts = 0 /\ lf_agg_out status_merge_facts = 0 /\
+   section_ok state_get_facts = true /\ section_ok status_get_facts = true /\
+   direct_accesses_runtime = 0).
+Proof. exact merge_atomic_in_source_spelled. Qed.
+Print Assumptions C11_merge_is_atomic_in_source.
+
+(* the schedules with the switch set to "atomic" are the token schedules of the other theorems *)
+Theorem C11_atomic_schedules_are_token_schedules : forall sched g,
+  run_sched_g true sched g = mkG (run_sched sched (g_c g)) (g_pend g).
+Proof. exact run_sched_g_atomic. Qed.
+Print Assumptions C11_atomic_schedules_are_token_schedules.
+
+(* ---- interleaved updates, all schedules, with the switch set by the source
+        ([state_merge_atomic] is computed from Gen_MergeAtomic.v): at quiescence every ancestor
+        of a critical task whose last written state is ERROR reports ERROR ---- *)
 
 Theorem C11_error_never_lost : forall w t ups sched,
   Inv w t ->
-  let c := run_sched sched (cinit t ups) in
-  quiescent c = true ->
-  forall p r x, r <> [] -> get_sub (p ++ r) (c_tree c) = Some (Leaf true ERROR x) ->
-  st_at p (c_tree c) = Some ERROR.
-Proof. exact never_lost. Qed.
+  let g := run_sched_g state_merge_atomic sched (ginit t ups) in
+  gquiescent g = true ->
+  forall p r x, r <> [] -> get_sub (p ++ r) (g_tree g) = Some (Leaf true ERROR x) ->
+  st_at p (g_tree g) = Some ERROR.
+Proof. exact never_lost_src. Qed.
 Print Assumptions C11_error_never_lost.
+
+(* and it does rest on that: were the lock released between re-aggregating the children and
+   storing the result, the same statement would be false on a loaded tree of two critical tasks
+   (witness wit_s_tree / wit_s_ups / wit_s_sched: the root ends MIXED above a task in ERROR) *)
+Definition C11_error_never_lost_split_statement : Prop :=
+  forall t0 ups sched,
+    let g := run_sched_g false sched (ginit (fresh t0) ups) in
+    gquiescent g = true ->
+    forall p r x, r <> [] -> get_sub (p ++ r) (g_tree g) = Some (Leaf true ERROR x) ->
+    st_at p (g_tree g) = Some ERROR.
+
+Theorem C11_error_lost_if_merge_not_atomic : ~ C11_error_never_lost_split_statement.
+Proof. exact never_lost_split_refuted. Qed.
+Print Assumptions C11_error_lost_if_merge_not_atomic.
 
 (* and at every moment of every schedule: a counted child in ERROR has an ERROR parent, or a
    token that will deliver ERROR to the parent is on that edge *)
@@ -236,7 +274,7 @@ Proof. exact monitor_accepts_model. Qed.
 Print Assumptions C11_monitor_accepts_consistent_runs.
 
 (* non-vacuity: a concrete loaded tree with task, nested aggregator and a non-critical leaf that
-   satisfies the strong invariant; the two refutation witnesses are loaded trees too *)
+   satisfies the strong invariant; the refutation witnesses are loaded trees too *)
 Example C11_nonvacuous :
   let t := Agg STANDBY INACTIVE [Agg STANDBY INACTIVE [Leaf true STANDBY INACTIVE; Leaf false STANDBY INACTIVE];
                                  Leaf true STANDBY INACTIVE] in
@@ -244,5 +282,8 @@ Example C11_nonvacuous :
   st_of (run_ops [OpState [0; 0]%nat ERROR; OpState [1]%nat RUNNING; OpStatus [0; 1]%nat ACTIVE] (fresh t)) = ERROR /\
   stat_of (run_ops [OpState [0; 0]%nat ERROR; OpState [1]%nat RUNNING; OpStatus [0; 1]%nat ACTIVE] (fresh t)) = PARTIAL /\
   fresh wit_a_tree = wit_a_tree /\ fresh wit_b_tree = wit_b_tree /\ all_counted wit_b_tree = true /\
-  quiescent (run_sched wit_b_sched (cinit wit_b_tree wit_b_ups)) = true.
+  quiescent (run_sched wit_b_sched (cinit wit_b_tree wit_b_ups)) = true /\
+  fresh wit_s_tree = wit_s_tree /\ all_counted wit_s_tree = true /\
+  gquiescent (run_sched_g false wit_s_sched (ginit wit_s_tree wit_s_ups)) = true /\
+  gquiescent (run_sched_g state_merge_atomic wit_s_sched (ginit wit_s_tree wit_s_ups)) = true.
 Proof. vm_compute. repeat split; reflexivity. Qed.
